@@ -84,6 +84,10 @@ CHECKS = {
             "The harness observes the real request_profile at its I/O boundary (builtins.open / os.replace / post_request wrapped from outside) to detect the write protocol (in place or write-aside-and-rename) and whether two clients with equal ORG/FID but different URLs share a cache file; TLC model-checks the protocol specification instantiated with those constants (2 clients, 1 crash, 3-4 calls, all interleavings; ~1M states) for CacheWholeOrAbsent, CacheNeverVanishes, CacheNeverOlder, SuccessFromOwnServer, AskedWithHeldDate, CacheBelongsToServer, FailureLeavesCache, StartNeverFailsOnCache, and every counterexample (JSON trace) is driven through the real code by the step scheduler. Independently the scheduler explores the real code - behaviour sequences (<= 3 exhaustively, <= 6 sampled) with fresh/restarted clients, a crash after each I/O step followed by further calls, interleavings of two writers, client pairs with equal/different ORG/FID/URL - and every I/O step and result is judged by the property-level trace specification.",
             "Trusted: TLC, the protocol and property specifications, the scheduler (yield points only at I/O on the cache directory and at the network exchange; writes are unbuffered and split in two so torn writes are observable), byte-equality classification of cache files against the profiles the fake servers sent. Preemption inside pure-Python sections is not enumerated (they do not touch the cache). One known finding: concurrent lost update.",
             "DESIGN.md section 6 C15"),
+    "C17": ("TLA+ Purity: model of the shared dispatch table (TLC: history independence) + memo-table trace specification validating recorded executions from fresh interpreters, varied in-process histories, repetition and 2-16 threads",
+            "TLC checks on the Purity model that the class-level dispatch table re-registered by every DateTime string conversion cannot make a later write depend on the conversion history. Workloads (parse / convert / to_etree / serialize of TLC-simulated documents of all classes incl. invalid ones and documents with vendor / renamed elements; date-time, decimal and string conversions) run in two fresh interpreters in different orders, in-process after other workloads, repeated, and in 2-16 threads at a 1 microsecond switch interval; every call logs digests of input (before and after) and result, and TLC validates the merged trace against the memo specification: same input => same result, input unchanged.",
+            "Trusted: TLC, the digests (sha1 of bytes / ElementTree text / model projection). Real thread interleavings are observed, not enumerated: a race that does not manifest in the observed runs is not detected (DESIGN section 8).",
+            "DESIGN.md section 6 C17"),
 }
 
 PENDING = {}
